@@ -54,7 +54,7 @@ def clamp(run, repo):
 def bep_rules(run, repo):
     n = 0
     bci = repo.cls('pmutt.reaction.bep.BEP')
-    for m_ in ('_get_descriptor_val', '_get_adjusted_slope', 'get_E_act', 'get_EoRT_act', 'get_UoRT', 'get_HoRT'):
+    for m_ in ('get_E_act', 'get_EoRT_act', 'get_UoRT', 'get_HoRT'):
         run.fn('pmutt.reaction.bep.BEP.' + m_)
     for desc in DESCRIPTORS:
         I = Interp(repo, max_depth=14)
